@@ -11,6 +11,7 @@ history is reproducible from (seed, case index).
 """
 import collections
 import collections.abc
+import operator
 import uuid as _uuid
 
 from . import irio, world
@@ -48,6 +49,28 @@ def fresh(name):
 def jx(i):
     """JSON-able form of an index argument for the operation log."""
     return i if type(i) is int else repr(i)
+
+
+
+def _keys_view(xs):
+    """A Set that is not a set: the key view of a dict."""
+    return dict.fromkeys(xs).keys()
+
+
+class _AbcSet(collections.abc.Set):
+    """A minimal collections.abc.Set that is neither set nor frozenset."""
+
+    def __init__(self, xs=()):
+        self._xs = list(dict.fromkeys(xs))
+
+    def __contains__(self, x):
+        return any(x is y or x == y for y in self._xs)
+
+    def __iter__(self):
+        return iter(self._xs)
+
+    def __len__(self):
+        return len(self._xs)
 
 
 class IndexLike:
@@ -425,6 +448,15 @@ class World:
         objs = [self.obj[x] for x in others]
         model = set(members)
         attach = [x for x in others if x not in model]
+        # container type of a plain operand of the in-place operators: a
+        # set, a frozenset, or a Set that is neither (a dict's key view, a
+        # collections.abc.Set subclass); the MutableSet protocol takes them
+        # all and keeps the collection object
+        wrap = set
+        if op in ("ior", "isub", "ixor", "iand") and operand is None:
+            wrap = rnd.choice([set, set, frozenset, _keys_view, _AbcSet])
+            self.ctx.count("c16:set_inplace_operand_type:" + getattr(
+                wrap, "__name__", "?"))
         if op == "add" and members and rnd.random() < 0.3:
             # a member added again: nothing to do, as for the built-in
             others = [rnd.choice(members)]
@@ -458,7 +490,9 @@ class World:
                 objs = objs + [junk]
                 rnd.shuffle(objs)
         self.log(op="set." + op, parent=p, coll=coll, others=others,
-                 operand=form, **({"bad_element": bad} if bad else {}))
+                 operand=form, **({"bad_element": bad} if bad else {}),
+                 **({"operand_type": wrap.__name__} if wrap is not set
+                    else {}))
         self.ctx.count("c16:set_operand:" + form)
         expect_exc = None
         ret = None
@@ -471,6 +505,18 @@ class World:
             for _ in range(rnd.randint(0, len(model))):
                 seen_before.append(self.of(next(live_it)))
             self.case.ops[-1]["live_iterator_advanced"] = len(seen_before)
+        # the in-place operators are applied to the attribute itself half of
+        # the time (`node.coll -= x` re-assigns what the operator returns),
+        # so that an operator which does not return the collection shows in
+        # the world and not only in the returned object
+        via_attr = rnd.random() < 0.5
+
+        def inplace(fn, arg):
+            if via_attr:
+                r = fn(getattr(self.obj[p], coll), arg)
+                setattr(self.obj[p], coll, r)
+                return r
+            return fn(S, arg)
         try:
             if op == "add":
                 ret = S.add(objs[0])
@@ -517,17 +563,16 @@ class World:
                 ret = S.update(*args)
                 new = model | set(others)
             elif op == "ior":
-                S |= (operand if operand is not None else (
-                    objs if bad else set(objs)))
+                S = inplace(operator.ior, operand if operand is not None else ( objs if bad else wrap(objs)))
                 new = model | set(others)
             elif op == "isub":
-                S -= (operand if operand is not None else set(objs))
+                S = inplace(operator.isub, operand if operand is not None else wrap(objs))
                 new = model - set(others)
             elif op == "ixor":
-                S ^= (operand if operand is not None else set(objs))
+                S = inplace(operator.ixor, operand if operand is not None else wrap(objs))
                 new = model ^ set(others)
             elif op == "iand":
-                S &= (operand if operand is not None else set(objs))
+                S = inplace(operator.iand, operand if operand is not None else wrap(objs))
                 new = model & set(others)
         except Exception as e:
             exc = e
@@ -830,9 +875,18 @@ class World:
             fn = lambda T: T.reverse()
         elif op == "index":
             x = pick_mod()
+            if cur and rnd.random() < 0.6:
+                x = rnd.choice(cur)
             args = {"x": x}
             if rnd.random() < 0.5:
                 a, b = rand_index(), rand_index()
+                # bounds the built-in treats as *explicit* although they are
+                # falsy or coincide with a default: 0, len, -len, +-1
+                edge = [0, 0, 0, n, -n, 1, -1, n - 1, n + 1]
+                if rnd.random() < 0.5:
+                    a = rnd.choice(edge)
+                if rnd.random() < 0.5:
+                    b = rnd.choice(edge)
                 args.update(start=jx(a), stop=jx(b))
                 fn = lambda T: T.index(self.obj[x], a, b)
             else:
